@@ -1,5 +1,5 @@
 JOBS = []
-for body, tier in ((5, "quick"), (7, "thorough")):
+for body, tier in ((4, "quick"), (5, "thorough"), (7, "thorough")):
     for which in ("numeric", "channel"):
         JOBS.append(dict(name="expr.%s.b%d" % (which, body), props=["C19", "C01"], kind="B",
             bound="expression body <= %d bytes over {1 2 - . : , ! @ blank a}, every index 0..%d%s; unwinding assertions on" % (body, body + 1, ", capacity 0..3" if which == "channel" else ""),
